@@ -80,6 +80,21 @@ class Fresh:
                     if l and self.env.get(l[1]) == 'freshcoll':
                         for _nm, i in hir.bindings(n['pat']):
                             self.env[i] = 'fresh'
+                    # for (a, b) in xs.iter().zip(ys.iter()): each side is fresh when its collection is
+                    it0 = hir.strip(n['iter'])
+                    while it0.get('k') == 'MethodCall' and it0['name'] in ('copied', 'cloned', 'enumerate'):
+                        it0 = hir.strip(it0['recv'])
+                    if it0.get('k') == 'MethodCall' and it0['name'] == 'zip' and it0['args'] and n['pat'].get('k') in ('Tuple', 'Ref'):
+                        tp = n['pat'] if n['pat'].get('k') == 'Tuple' else n['pat']['sub']
+                        if tp.get('k') == 'Tuple' and len(tp['sub']) == 2:
+                            for side, sp in zip((it0['recv'], it0['args'][0]), tp['sub']):
+                                sd = hir.strip(side)
+                                while sd.get('k') == 'MethodCall' and sd['name'] in ('iter', 'into_iter', 'copied', 'cloned'):
+                                    sd = hir.strip(sd['recv'])
+                                ls = hir.local(sd)
+                                if ls and self.env.get(ls[1]) == 'freshcoll':
+                                    for _nm, i in hir.bindings(sp):
+                                        self.env[i] = 'fresh'
 
 
 def raw_sites(facts, keys):
